@@ -93,7 +93,8 @@ func (p *Publish) Unpack(r io.Reader) error {
 	if err != nil {
 		return err
 	}
-	if !ValidTopicName(true, p.TopicName) {
+	// a zero length topic name is only allowed together with a topic alias (v5), checked below
+	if len(p.TopicName) != 0 && !ValidTopicName(true, p.TopicName) {
 		return codes.ErrMalformed
 	}
 	if p.Qos > Qos0 {
@@ -106,6 +107,14 @@ func (p *Publish) Unpack(r io.Reader) error {
 		p.Properties = &Properties{}
 		if err := p.Properties.Unpack(bufr, PUBLISH); err != nil {
 			return err
+		}
+	}
+	if len(p.TopicName) == 0 {
+		if p.Version != Version5 {
+			return codes.ErrMalformed // [MQTT-4.7.3-1]
+		}
+		if p.Properties.TopicAlias == nil {
+			return codes.ErrProtocol
 		}
 	}
 	p.Payload = bufr.Next(bufr.Len())
